@@ -25,6 +25,12 @@ pub enum CStep {
     Peer { to_replica: bool, req: crate::props::c09::AbsReq, uniform: Option<u16> },
     /// a peer request with concrete numbers (enumerated scenarios)
     PeerRaw { to_replica: bool, req: crate::props::c09::RawReq },
+    /// like `Req`, but the writer's proof is altered (alteration number sel(alt, |alteration set|))
+    /// before the replica gets it: normally refused, and the refusal must leave no trace anywhere
+    ReqAltered { req: Req, alt: u16 },
+    /// re-create the writer's (or the replica's) core over its existing storage with overwrite = true;
+    /// the reference configuration starts over on brand-new storage instead
+    Recreate { replica: bool },
 }
 
 pub fn cstep_strategy() -> impl Strategy<Value = CStep> {
@@ -40,7 +46,23 @@ pub fn cstep_strategy() -> impl Strategy<Value = CStep> {
         2 => Just(CStep::RReopen),
         3 => any::<u16>().prop_map(CStep::RGet),
         4 => (any::<bool>(), crate::props::c09::absreq_strategy(), prop::option::weighted(0.6, any::<u16>())).prop_map(|(to_replica, req, uniform)| CStep::Peer { to_replica, req, uniform }),
+        3 => (req_strategy(), any::<u16>()).prop_map(|(req, alt)| CStep::ReqAltered { req, alt }),
     ]
+}
+
+/// Histories with one or two re-creations (overwrite = true) in the middle.
+pub fn overwrite_steps_strategy() -> impl Strategy<Value = Vec<CStep>> {
+    let seg = || prop::collection::vec(cstep_strategy(), 1..14);
+    (seg(), any::<bool>(), seg(), prop::option::of((any::<bool>(), seg()))).prop_map(|(a, r1, b, more)| {
+        let mut s = a;
+        s.push(CStep::Recreate { replica: r1 });
+        s.extend(b);
+        if let Some((r2, c)) = more {
+            s.push(CStep::Recreate { replica: r2 });
+            s.extend(c);
+        }
+        s
+    })
 }
 
 pub fn csteps_strategy() -> impl Strategy<Value = Vec<CStep>> {
@@ -71,6 +93,13 @@ fn info_str(c: &Hypercore) -> String {
 
 /// Run the steps on one configuration, purely API-driven (no model).
 pub fn run_config<E: Env + Clone>(wenv: &E, renv: &E, cache: CacheCfg, steps: &[CStep]) -> Result<ConfigRun, Failure> {
+    run_config_ext(wenv, renv, cache, steps, false)
+}
+
+/// `fresh_on_recreate`: a `Recreate` step moves to brand-new storage (the reference for "overwriting
+/// equals starting over") instead of overwriting the existing one.
+pub fn run_config_ext<E: Env + Clone>(wenv: &E, renv: &E, cache: CacheCfg, steps: &[CStep], fresh_on_recreate: bool) -> Result<ConfigRun, Failure> {
+    let (mut wenv, mut renv) = (wenv.clone(), renv.clone());
     let mk = |r: hc::CallResult<Hypercore>, what: &str| -> Result<Hypercore, Failure> {
         match r {
             Ok(Ok(c)) => Ok(c),
@@ -146,7 +175,27 @@ pub fn run_config<E: Env + Clone>(wenv: &E, renv: &E, cache: CacheCfg, steps: &[
                     };
                     TraceItem::W(out)
                 }
-                CStep::Req(req) => {
+                CStep::Recreate { replica } => {
+                    let (env, kp) = if *replica { (&mut renv, hc::public_only(&hc::test_keypair())) } else { (&mut wenv, hc::test_keypair()) };
+                    let core = if fresh_on_recreate {
+                        *env = env.fresh_like();
+                        mk(env.create_with(kp, cache), "creating a core on new storage")?
+                    } else {
+                        mk(env.recreate_with(kp, cache), "re-creating a core over existing storage")?
+                    };
+                    if *replica {
+                        r = core;
+                    } else {
+                        w = core;
+                    }
+                    TraceItem::Info(format!("recreated writer {} replica {}", info_str(&w), info_str(&r)))
+                }
+                CStep::Req(_) | CStep::ReqAltered { .. } => {
+                    let (req, alt) = match st {
+                        CStep::Req(q) => (q, None),
+                        CStep::ReqAltered { req, alt } => (req, Some(*alt)),
+                        _ => unreachable!(),
+                    };
                     let rl = r.info().length;
                     let wi = w.info();
                     let behind = wi.length.saturating_sub(rl);
@@ -189,6 +238,17 @@ pub fn run_config<E: Env + Clone>(wenv: &E, renv: &E, cache: CacheCfg, steps: &[
                         Err(e) => TraceItem::Req { req: reqs, proof: None, writer_err: Some(err_kind(&e)), applied: None },
                         Ok(None) => TraceItem::Req { req: reqs, proof: None, writer_err: None, applied: None },
                         Ok(Some(p)) => {
+                            let p = match alt {
+                                None => p,
+                                Some(a) => {
+                                    let mut pp = PProof::from_proof(&p);
+                                    let (alts, _) = crate::mutate::alterations(&pp);
+                                    if !alts.is_empty() {
+                                        crate::mutate::apply_alt(&mut pp, &alts[sel(a, alts.len() as u64) as usize]);
+                                    }
+                                    pp.to_proof()
+                                }
+                            };
                             let applied = match block_on(r.verify_and_apply_proof(&p)) {
                                 Ok(b) => Ok(b),
                                 Err(e) => Err(err_kind(&e)),
@@ -322,7 +382,15 @@ pub fn run_case(steps: &[CStep], with_disk: bool, with_cache: bool, local: &mut 
 fn run_case_inner(steps: &[CStep], with_disk: bool, with_cache: bool, local: &mut Local) -> Check {
     // reference: instrumented backend, cache off
     let (wd, rd) = (Disk::new(), Disk::new());
-    let reference = run_config(&wd, &rd, CacheCfg::Off, steps)?;
+    let has_recreate = steps.iter().any(|s| matches!(s, CStep::Recreate { .. }));
+    let reference = run_config_ext(&wd, &rd, CacheCfg::Off, steps, true)?;
+    if has_recreate {
+        local.class("histories_with_overwrite");
+        local.nontrivial(&steps);
+    }
+    if steps.iter().any(|s| matches!(s, CStep::ReqAltered { .. })) {
+        local.class("histories_with_altered_proofs");
+    }
     // journaled instrumented backend
     let (wj, rj) = (Disk::journaled(), Disk::journaled());
     compare("journal/cache-off", &reference, &run_config(&wj, &rj, CacheCfg::Off, steps)?, true)?;
@@ -426,13 +494,18 @@ pub fn run(ctx: &Ctx) {
          (values, Ok/Err class, complete proofs, missing_nodes-derived requests, infos) must be equal and the four files of writer \
          and replica must be byte-identical when read back through the backend (punched holes read as zeros). An enumerated stage asks a writer of 1..10 blocks (and its \
          replica) for every tree/block index around its tree, existing or not, then grows it and reads everything, on all cache \
-         configurations. Non-trivial = history \
+         configurations. Histories also contain altered proofs (one alteration of the C04 set applied to the writer's proof before \
+         the replica gets it; whatever the replica answers, all later results and files must still agree on every configuration) and, \
+         in the overwrite stages, re-creation of the writer's or replica's core over its existing storage with overwrite = true, where \
+         the reference configuration starts over on brand-new storage: overwriting must be indistinguishable from starting fresh, in \
+         observations and bytes. Non-trivial = history \
          with a clear strictly inside the data followed by a reopen, or with more than 3 tree-reading calls (beyond the tiny cache's \
-         capacity).",
+         capacity), or with an overwrite.",
     );
     if std::env::var("HCV_ONLY_DISK").is_ok() {
         // second build without the `sparse` feature (thorough tier): only the disk comparison
         random_stage(ctx, "disk-nosparse", ctx.tier.pick(320, 10_000), csteps_strategy, |s: &Vec<CStep>, local| run_case(s, true, false, local));
+        random_stage(ctx, "overwrite-equals-fresh-disk-nosparse", ctx.tier.pick(160, 5_000), overwrite_steps_strategy, |s: &Vec<CStep>, local| run_case(s, true, false, local));
         return;
     }
     if let Ok(path) = std::env::var("HCV_NOSPARSE_EVIDENCE") {
@@ -448,6 +521,8 @@ pub fn run(ctx: &Ctx) {
     let nps = ps.len() as u64;
     indexed_stage(ctx, "refused-request-then-growth", nps, |i| ps[i as usize].clone(), |s: &Vec<CStep>, local| run_case(s, false, true, local));
     random_stage(ctx, "disk", ctx.tier.pick(320, 10_000), csteps_strategy, |s: &Vec<CStep>, local| run_case(s, true, false, local));
+    random_stage(ctx, "overwrite-equals-fresh", ctx.tier.pick(1_200, 30_000), overwrite_steps_strategy, |s: &Vec<CStep>, local| run_case(s, false, true, local));
+    random_stage(ctx, "overwrite-equals-fresh-disk", ctx.tier.pick(160, 5_000), overwrite_steps_strategy, |s: &Vec<CStep>, local| run_case(s, true, false, local));
 }
 
 pub fn replay(case: &Value) -> Check {
